@@ -305,6 +305,44 @@ func registerIntrinsics(ex *Executor) {
 		return nil, cNext
 	}
 
+	// ---- sync/atomic: sequentially consistent cells (atomic by contract: not part of the access log) ----
+	for _, ty := range []string{"Int64", "Int32", "Uint64", "Uint32"} {
+		I["sync/atomic.Add"+ty] = func(ex *Executor, st *State, cc *CallCtx, args []Val) (Val, ctl) {
+			p := args[0].(Ptr)
+			save := st.LogOn
+			st.LogOn = false
+			v := smt.Add(ex.load(st, p).(*smt.Term), args[1].(*smt.Term))
+			ex.store(st, p, v)
+			st.LogOn = save
+			return v, cNext
+		}
+		I["sync/atomic.Load"+ty] = func(ex *Executor, st *State, cc *CallCtx, args []Val) (Val, ctl) {
+			save := st.LogOn
+			st.LogOn = false
+			v := ex.load(st, args[0].(Ptr))
+			st.LogOn = save
+			return v, cNext
+		}
+		I["sync/atomic.Store"+ty] = func(ex *Executor, st *State, cc *CallCtx, args []Val) (Val, ctl) {
+			save := st.LogOn
+			st.LogOn = false
+			ex.store(st, args[0].(Ptr), args[1])
+			st.LogOn = save
+			return nil, cNext
+		}
+		I["sync/atomic.CompareAndSwap"+ty] = func(ex *Executor, st *State, cc *CallCtx, args []Val) (Val, ctl) {
+			p := args[0].(Ptr)
+			save := st.LogOn
+			st.LogOn = false
+			defer func() { st.LogOn = save }()
+			cur := ex.load(st, p).(*smt.Term)
+			if ex.branch(st, smt.Eq(cur, args[1].(*smt.Term))) {
+				ex.store(st, p, args[2])
+				return smt.True, cNext
+			}
+			return smt.False, cNext
+		}
+	}
 	// ---- errors / fmt ----
 	I["fmt.Errorf"] = func(ex *Executor, st *State, cc *CallCtx, args []Val) (Val, ctl) {
 		format := strArg(args[0])
